@@ -87,7 +87,7 @@ pub fn check_for_no_kvp_directive(code: &str, subject_pos: usize, line_comment_e
     ensures r == directive_before(code.spec_bytes(), subject_pos as int, no_kvp_name())
 { unimplemented!() }
 #[verifier::external_body]
-pub fn get_name_for_ref_kvp_key() -> (r: &'static str) ensures r.spec_bytes() == ref_key() { unimplemented!() }
+pub fn get_name_for_ref_kvp_key() -> (r: &'static str) ensures r.spec_bytes() == ref_key(), r@ == seq!['r', 'e', 'f'] { unimplemented!() }
 impl LogRefEntry {
     #[verifier::external_body]
     pub fn extract_reference(log_literal: &str) -> (r: Option<u32>) ensures r == extract_spec(log_literal.spec_bytes()) { unimplemented!() }
@@ -97,19 +97,22 @@ impl LogRefEntry {
     common.entry_accessors(u, with_token=False)
 
     u.raw("verus! {\n")
-    # ---- macro_of_interest ------------------------------------------------------------------------------
-    f = u.real_fn(RP, "macro_of_interest", scope=FINDER_SCOPE, props=("C11", "C17"))
-    rules.sig(f, ret="r")
-    rules.r5_format(f, kinds={}, min_count=1)
-    # R9: `<&String> == <&str>` has no Verus spec; String: PartialEq<str> compares the text, so compare through as_str()
-    f.replace_all(r"\bmacro_name\s*==", "macro_name.as_str() ==", "R9", regex=True, min_count=1)
     u.raw("""
 // C11: a macro is of interest iff its written name is exactly a configured name, or exactly `module::name`
 pub open spec fn qualified(m: RustLogMacro) -> Seq<char> { m.module@ + seq![':', ':'] + m.name@ }
 pub open spec fn interest(name: Seq<char>, macros: Seq<RustLogMacro>, k: int) -> bool {
     exists|i: int| 0 <= i < k && (name == (#[trigger] macros[i]).name@ || name == qualified(macros[i]))
 }
+}
 """)
+    u.include("spec/findspec.rs")
+    u.raw("verus! {\n")
+    # ---- macro_of_interest ------------------------------------------------------------------------------
+    f = u.real_fn(RP, "macro_of_interest", scope=FINDER_SCOPE, props=("C11", "C17"))
+    rules.sig(f, ret="r")
+    rules.r5_format(f, kinds={}, min_count=1)
+    # R9: `<&String> == <&str>` has no Verus spec; String: PartialEq<str> compares the text, so compare through as_str()
+    f.replace_all(r"\bmacro_name\s*==", "macro_name.as_str() ==", "R9", regex=True, min_count=1)
     f.ensures.append(("C11.filter", "r == interest(macro_name@, config.rust.log_macros@, config.rust.log_macros@.len() as int)"))
     # `for x in &V` -> `for x in it: V.iter()` (same iteration)
     kw = f.loops()[0]
@@ -146,6 +149,9 @@ pub open spec fn interest(name: Seq<char>, macros: Seq<RustLogMacro>, k: int) ->
     pc = lexer.match_close(f.body, po)
     f.replace(h.start(), pc + 1, "last_path_segment(&macro_name_str)", "R15", "rfind/map_or closure computing the unused `_macro_name` field -> shim")
 
+    LINECOL = ("forall|j: int| 0 <= j < result@.len() ==> (#[trigger] result@[j]).position.line as int == line_of(inp, result@[j].position.character as int)"
+               " && result@[j].position.column as int == col_of(inp, result@[j].position.character as int)")
+    NMAC = "config.rust.log_macros@, config.rust.log_macros@.len() as int"
     loops = f.loops()
     fors = [l for l in loops if l[0] == "for"]
     if len(fors) != 4:
@@ -163,6 +169,8 @@ pub open spec fn interest(name: Seq<char>, macros: Seq<RustLogMacro>, k: int) ->
         ("C03.positions,C17.positions", "positions_ok(inp, result@)"),
         ("C03.positions,C17.positions", "0 <= hw <= inp.len() && forall|j: int| 0 <= j < result@.len() ==> (#[trigger] result@[j]).position.character as int <= hw"),
         ("C03.positions,C17.positions", "__it0.rest().len() > 0 ==> hw <= __it0.rest()[0].start"),
+        ("C11.filter,C13.kind,C14.where,C12.extract", "view_entries(result@) == tree_entries(top.children, inp, *config, top.children.len() - __it0.rest().len())"),
+        ("C05.where", LINECOL),
     ])
     # ghost: the statement's span bounds every position recorded for it
     f.before_stmt("let mut result = Vec::new();", "let ghost inp = code.spec_bytes(); let ghost mut hw: int = 0;\n        ")
@@ -175,7 +183,7 @@ pub open spec fn interest(name: Seq<char>, macros: Seq<RustLogMacro>, k: int) ->
                 "\n            let ghost hw0 = hw;"
                 "\n            proof { assert(found.g() == top.children[idx]); hw = found.g().end;"
                 " assert(forall|j: int| idx < j < top.children.len() ==> top.children[idx].end <= (#[trigger] top.children[j]).start); }"
-                "\n            let ghost mlo = found.g().start; let ghost mhi = found.g().end;", "G", "per-statement ghost bounds")
+                "\n            let ghost mlo = found.g().start; let ghost mhi = found.g().end; let ghost g = found.g();", "G", "per-statement ghost bounds")
     span_facts = [
         "0 <= hw0 <= mlo <= mhi <= inp.len() && hw == mhi",
         "positions_ok(inp, result@) && forall|j: int| 0 <= j < result@.len() ==> (#[trigger] result@[j]).position.character as int <= hw0",
@@ -186,12 +194,25 @@ pub open spec fn interest(name: Seq<char>, macros: Seq<RustLogMacro>, k: int) ->
         "forall|k: int| 0 <= k < kvp_spans@.len() && (#[trigger] kvp_spans@[k]).1.is_some() ==> kvp_spans@[k].1.unwrap().input() == inp"
         " && mlo <= kvp_spans@[k].1.unwrap().lo() <= kvp_spans@[k].1.unwrap().hi() <= mhi",
         "rule_ref_container_span.input() == inp && mlo <= rule_ref_container_span.lo() <= rule_ref_container_span.hi() <= mhi && is_boundary(inp, rule_ref_container_span.lo())",
+        # the statement passed the filters; its entries so far are those of the tree
+        ("C11.filter,C14.where", "g == top.children[idx] && 0 <= idx < top.children.len() && g.rule == Rule::log_macro && g.children.len() >= 2 && g.children[0].rule == Rule::macro_name"
+         " && g.children[1] == ma && ma.rule == Rule::macro_args && rule_ref_container_span.lo() == ma.start"
+         " && !directive_before(inp, g.children[0].start, ignore_name()) && interest(decode_utf8(text(inp, g.children[0])), %s)" % NMAC),
+        ("C11.filter,C13.kind,C14.where,C12.extract", "view_entries(result@) == tree_entries(top.children, inp, *config, idx)"),
+        ("C05.where", LINECOL),
+    ]
+    args_facts = lambda i1: [
+        ("C13.kind", "log_message_span.is_some() == args_msg(ma.children, %s).is_some()" % i1),
+        ("C13.kind", "log_message_span.is_some() ==> span_is(log_message_span.unwrap(), args_msg(ma.children, %s).unwrap(), inp)" % i1),
+        ("C13.new", "first_arg_pos.is_some() == (%s > 0)" % i1),
+        ("C13.new", "first_arg_pos.is_some() ==> first_arg_pos.unwrap().at() == ma.children[0].start"),
     ]
     rules.r12_pairs(f, inner_args[1], "__it1", common_inv[:2] + span_facts + [
         "__it1.input() == inp", "kids_rule_ok(ma) && kids_span_ok(ma, inp)", "mlo <= ma.start && ma.end <= mhi",
         "__it1.rest().len() <= ma.children.len()",
         "__it1.rest() == ma.children.subrange(ma.children.len() - __it1.rest().len(), ma.children.len() as int)",
-    ])
+        ("C13.kind", "kv_match(kvp_spans@, args_kvs(ma.children, ma.children.len() - __it1.rest().len()), inp)"),
+    ] + args_facts("ma.children.len() - __it1.rest().len()"))
     f.insert_at(inner_args[1], "let ghost ma = rule_l2.g();\n                    ")
     ob1 = f.loop_open_brace(inner_args[2])
     f.insert_at(ob1 + 1, " proof { assert(rule.g() == ma.children[ma.children.len() - __it1.rest().len() - 1]); }", "G", "element of macro_args")
@@ -199,18 +220,53 @@ pub open spec fn interest(name: Seq<char>, macros: Seq<RustLogMacro>, k: int) ->
         "__it2.input() == inp", "kids_span_ok(ka, inp)", "mlo <= ka.start && ka.end <= mhi",
         "__it2.rest().len() <= ka.children.len()",
         "__it2.rest() == ka.children.subrange(ka.children.len() - __it2.rest().len(), ka.children.len() as int)",
-    ])
+        "0 <= i1m < ma.children.len() && ka == ma.children[i1m] && ka.rule == Rule::kvp_args && i1m == ma.children.len() - __it1.rest().len() - 1",
+        ("C13.kind", "kv_match(kvp_spans@, kv_fold(args_kvs(ma.children, i1m), ka.children, ka.children.len() - __it2.rest().len()), inp)"),
+    ] + args_facts("i1m") if False else common_inv[:2] + span_facts + [
+        "__it2.input() == inp", "kids_span_ok(ka, inp)", "mlo <= ka.start && ka.end <= mhi",
+        "__it2.rest().len() <= ka.children.len()",
+        "__it2.rest() == ka.children.subrange(ka.children.len() - __it2.rest().len(), ka.children.len() as int)",
+        "0 <= i1m < ma.children.len() && ka == ma.children[i1m] && ka.rule == Rule::kvp_args && i1m == ma.children.len() - __it1.rest().len() - 1",
+        "__it1.input() == inp && kids_rule_ok(ma) && kids_span_ok(ma, inp) && mlo <= ma.start && ma.end <= mhi && __it1.rest().len() <= ma.children.len()"
+        " && __it1.rest() == ma.children.subrange(ma.children.len() - __it1.rest().len(), ma.children.len() as int)",
+        ("C13.kind", "kv_match(kvp_spans@, kv_fold(args_kvs(ma.children, i1m), ka.children, ka.children.len() - __it2.rest().len()), inp)"),
+    ] + args_facts("i1m + 1"))
     # `let kvps = rule.into_inner();` consumes rule: snapshot before
-    f.before_stmt("let kvps = rule.into_inner();", "let ghost ka = rule.g();\n                                ")
+    f.before_stmt("let kvps = rule.into_inner();", "let ghost ka = rule.g(); let ghost i1m = ma.children.len() - __it1.rest().len() - 1;\n                                ")
     ob2 = f.loop_open_brace(inner_kvps[2])
     f.insert_at(ob2 + 1, " proof { assert(kvp.g() == ka.children[ka.children.len() - __it2.rest().len() - 1]); }", "G", "element of kvp_args")
     rules.r_for_tuple_vec(f, kvp_scan[1], common_inv[:2] + span_facts + [
         "0 <= __k <= kvp_spans@.len()",
         "code_pos.is_some() ==> mlo <= code_pos.unwrap().character as int <= mhi",
+        "kvs == args_kvs(ma.children, ma.children.len() as int) && kv_match(kvp_spans@, kvs, inp) && total_kvps == kvs.len()",
+        "ref_kvp_key.spec_bytes() == ref_key() && ref_kvp_key@ == seq!['r', 'e', 'f']",
+        "insertion_prefix.is_none() && insertion_suffix.is_none()",
+    ], except_break=[
+        ("C13.existing", "code_pos.is_none() && reference.is_none() && ref_kind == LogRefKind::Unknown"),
+        ("C13.existing", "forall|i: int| 0 <= i < __k ==> !(text(inp, (#[trigger] kvs[i]).0) == ref_key() && kvs[i].1.is_some())"),
+        ("C13.existing", "first_ref(kvs, inp, 0) == first_ref(kvs, inp, __k as int)"),
+    ], ensures=[
+        ("C13.existing", "code_pos.is_none() ==> reference.is_none() && ref_kind == LogRefKind::Unknown && first_ref(kvs, inp, 0).is_none()"),
+        ("C13.existing", "code_pos.is_some() ==> 0 <= hit < kvs.len() && first_ref(kvs, inp, 0) == Some(hit) && code_pos.unwrap().character as int == kvs[hit].1.unwrap().start && reference == parse_u32_spec(text(inp, kvs[hit].1.unwrap())) && ref_kind == LogRefKind::StructuredPreExisting && code_pos.unwrap().line as int == line_of(inp, code_pos.unwrap().character as int) && code_pos.unwrap().column as int == col_of(inp, code_pos.unwrap().character as int)"),
     ])
-    f.before_stmt("result.push(ref_entry);", "proof { lemma_positions_push(inp, result@, ref_entry, hw0); }\n                    ")
+    f.before_stmt("let total_kvps = kvp_spans.len();", "let ghost kvs = args_kvs(ma.children, ma.children.len() as int); let ghost mut hit: int = -1;\n                        ")
+    # inside the scan: the key text comparison is a comparison of the bytes
+    f.before_stmt("if kvp_key.as_str() == ref_kvp_key", "proof { lemma_encode_inj(); assert(kvp_spans@[__k - 1] == (kvp_key, kvp_value)); }\n                            ")
+    f.before_stmt("ref_kind = LogRefKind::StructuredPreExisting;", "proof { lemma_first_ref_from(kvs, inp, __k - 1); hit = __k - 1; }\n                                        ")
+    f.before_stmt("result.push(ref_entry);", "proof { lemma_positions_push(inp, result@, ref_entry, hw0); lemma_view_push(result@, ref_entry);\n"
+                  "                        reveal_strlit(\" = \"); reveal_strlit(\", \"); reveal_strlit(\"; \");\n"
+                  "                        assert(\" = \"@ =~= seq![' ', '=', ' ']); assert(\", \"@ =~= seq![',', ' ']); assert(\"; \"@ =~= seq![';', ' ']);\n"
+                  "                        assert(node_entry(g, inp, *config) == Some(view_entry(ref_entry))); // [C11.filter,C13.kind,C13.new,C13.existing,C14.where,C12.extract]\n"
+                  "                    }\n                    ")
+    f.after_stmt("insertion_prefix = Some(", " proof { reveal_strlit(\"\"); reveal_strlit(\" = \"); assert(insertion_prefix.unwrap()@ =~= ref_eq_prefix()); }")
+    f.after_stmt("let macro_name_str = match macro_name_parsed", " proof { encode_utf8_decode_utf8(macro_name_str@); assert(macro_name_str@ == decode_utf8(text(inp, g.children[0]))); }")
     f.ensures += [
         ("C03.positions,C17.positions", "positions_ok(code.spec_bytes(), result@)"),
+        # the result is exactly what the tree determines: nothing for unconfigured / ignored macros, and the documented kind,
+        # position, reference and separators for every other statement
+        ("C11.filter,C13.kind,C14.where,C12.extract", "forall|top: PairG| parse_tree_is(code.spec_bytes(), top) ==> "
+         "view_entries(result@) == tree_entries(top.children, code.spec_bytes(), *config, top.children.len() as int)"),
+        ("C05.where", LINECOL.replace("inp", "code.spec_bytes()")),
     ]
     regex_shims(u, statics)
     u.raw("}\n")
